@@ -953,7 +953,12 @@ func (rl *Shell) killRegion() {
 		return
 	}
 
+	// Point is left where the region started, so that
+	// an immediate yank puts the text back in place.
+	bpos, _ := rl.selection.Pos()
+
 	rl.Buffers.Write([]rune(rl.selection.Cut())...)
+	rl.cursor.Set(bpos)
 }
 
 // Copy the text in the region to the kill buffer.
